@@ -58,7 +58,7 @@ PROPS = {
     },
     "C12": {
         
-        "lean_props": ["ZarrsModel.Props.C12"],
+        "lean_props": ["ZarrsModel.Props.C12", "ZarrsModel.Props.C12Fixed"],
         "harness": "c12",
         "driver_gen_also": True,
         "rule": "direction w (zarrs writes, the specification-level reader reads): V3 arrays of rank 0..3 with ragged edges, 4 data types, non-zero fill values, default/v2 key encodings with either separator, "
@@ -75,7 +75,7 @@ PROPS = {
     },
     "C13": {
         
-        "lean_props": ["ZarrsModel.Props.C13"],
+        "lean_props": ["ZarrsModel.Props.C13", "ZarrsModel.Props.C13V2", "ZarrsModel.Props.C13V2Conv"],
         "harness": "c13",
         "rule": "MetadataV3 texts (24 fixed forms incl. sequence form, null/ill-typed members, unknown keys + random); structured ArrayMetadataV3 documents: ranks 0..3, 7 data types with matching fill "
                 "values, string/object/empty-configuration name forms, all chunk key encodings, transpose/bytes/gzip/crc32c/zstd codec lists with unknown skippable codecs, attributes (nested, unicode, "
@@ -237,7 +237,7 @@ PROPS = {
         "timeout": 3000,
     },
     "C03": {
-        "lean_props": ["ZarrsModel.Props.C03", "ZarrsModel.Props.C03PackBits", "ZarrsModel.Props.C03Lossy"],
+        "lean_props": ["ZarrsModel.Props.C03", "ZarrsModel.Props.C03PackBits", "ZarrsModel.Props.C03Lossy", "ZarrsModel.Props.C03Vlen"],
         "harness": "c03",
         "rule": "random codec chains built from metadata JSON (transpose with random order, squeeze, bytes both endians, packbits, pcodec, vlen/vlen_v2/vlen-utf8/vlen-bytes, crc32c, fletcher32, shuffle, "
                 "gzip 0-9, zstd 1-19 +-checksum, blosc x6 compressors, bz2 1-9, zlib 0-9, gdeflate 0-12) x 12 data types x shapes of rank 1-3 with size-1 dims (every 40th case a 500..9000-element chunk to "
@@ -266,8 +266,9 @@ PROPS = {
         "timeout": 3000,
     },
     "C02": {
-        "lean_props": ["ZarrsModel.Props.C02"],
+        "lean_props": ["ZarrsModel.Props.C02", "ZarrsModel.Props.C02Shard"],
         "harness": "c02",
+        "harness_also": ["c02s"],
         "rule": "random configurations (half sharded, nested sharding, both index locations, checksums/compressors before and after sharding, transposes, squeeze, vlen types, non-cubic chunks and size-1 "
                 "dims) with chunks written fully / partly fill / left absent; for up to 3 chunks EVERY sub-box (exhaustive when <=150 boxes, else 60 sampled) is read through retrieve_chunk_subset or the "
                 "chunk partial decoder, plus lists of 2-4 regions (sometimes with an empty region) and chunk-crossing retrieve_array_subset; each outcome is compared with the model's full-decode-then-slice "
